@@ -29,20 +29,24 @@ def available():
     return r.returncode == 0
 
 
-def hyp_campaign(prop, target_sub, instrument, runs_quick=1500, runs_thorough=150000, max_len=4096):
+def hyp_campaign(prop, target_sub, instrument, runs_quick=1500, runs_thorough=150000, max_len=4096, **kw):
     """Coverage-guided campaign over another sub-check's own Hypothesis strategy: libFuzzer mutates the byte
     buffer that Hypothesis decodes into a case (`test.hypothesis.fuzz_one_input`), so no bespoke decoder is
     needed and generator, oracle and replay format are exactly those of `target_sub`."""
     return campaign(prop, target_sub, "@hypothesis", instrument, runs_quick=runs_quick,
-                    runs_thorough=runs_thorough, max_len=max_len)
+                    runs_thorough=runs_thorough, max_len=max_len, **kw)
 
 
-def campaign(prop, subname, decode_name, instrument, runs_quick=20000, runs_thorough=400000, max_len=48):
+def campaign(prop, subname, decode_name, instrument, runs_quick=20000, runs_thorough=400000, max_len=48,
+             max_time_quick=40, max_time_thorough=840):
     def custom(tier, seed, shard, nshards, stats):
         if not available():
             stats.labels["atheris-unavailable"] += 1
             return
         runs = runs_quick if tier == "quick" else runs_thorough
+        # the campaign is bounded by count; the wall limit only keeps a slow machine from overrunning the tier
+        # (what was executed until then is reported; running out of time is never a violation)
+        max_time = max_time_quick if tier == "quick" else max_time_thorough
         work = tempfile.mkdtemp(prefix="vp-fuzz-%s-" % prop)
         try:
             out = os.path.join(work, "result.json")
@@ -52,7 +56,7 @@ def campaign(prop, subname, decode_name, instrument, runs_quick=20000, runs_thor
                        PYTHONDONTWRITEBYTECODE="1")
             cmd = [sys.executable, "-m", "vp.fuzz", "child", prop, subname, decode_name + ":" + tier, ",".join(instrument), out,
                    "-runs=%d" % runs, "-seed=%d" % (seed % (2 ** 31 - 1) + 1), "-max_len=%d" % max_len,
-                   "-print_final_stats=1", "-len_control=0", "-artifact_prefix=%s/" % work, corpus]
+                   "-print_final_stats=1", "-len_control=0", "-max_total_time=%d" % max_time, "-artifact_prefix=%s/" % work, corpus]
             p = subprocess.run(cmd, env=env, cwd=VERIF, stdout=subprocess.PIPE, stderr=subprocess.STDOUT, text=True)
             text = p.stdout
             res = {}
@@ -102,6 +106,10 @@ def child_main(argv):
     decode_name, _, tier = decode_name.partition(":")
     decode = getattr(mod, decode_name) if decode_name != "@hypothesis" else None
     state = {"execs": 0, "judged": 0, "nontrivial": set(), "samples": []}
+    # libFuzzer leaves through exit() (nothing after Fuzz() runs, atexit hooks do not run): results are written
+    # out periodically, often enough that at most a few percent of a campaign are missing from the counts
+    nruns = [int(a.split("=", 1)[1]) for a in fuzz_args if a.startswith("-runs=")]
+    every = max(25, (nruns[0] if nruns else 100000) // 40)
 
     def flush(extra=None):
         doc = {"execs": state["execs"], "judged": state["judged"], "nontrivial": sorted(state["nontrivial"])[:200000], "samples": state["samples"]}
@@ -111,8 +119,8 @@ def child_main(argv):
 
     def one(data):
         state["execs"] += 1
-        if state["execs"] % 5000 == 0:
-            flush()      # libFuzzer leaves through exit(): nothing after Fuzz() runs
+        if state["execs"] % every == 0:
+            flush()
         case = decode(atheris.FuzzedDataProvider(data))
         if case is None:
             return
@@ -150,7 +158,7 @@ def child_main(argv):
 
         def one(data):  # noqa: F811
             state["execs"] += 1
-            if state["execs"] % 2000 == 0:
+            if state["execs"] % every == 0:
                 flush()
             feed(data)
 
